@@ -283,8 +283,9 @@ def check(facts, res):
                     if verdict == "no-parent":
                         continue
                     n_rec_sites += 1
-                    from_tree = any(x[0] == "call" and callee_name(x) == "get_parent" for x in walk(par)) and \
-                        any(x[0] == "call" and callee_name(x) in ("get_revisions", "next") for x in walk(rev))
+                    # the parent is read from a tree entry (RevisionTreeEntry::get_parent): the pair is an entry of a revision map,
+                    # inserted earlier under the invariant
+                    from_tree = any(x[0] == "call" and callee_name(x) == "get_parent" and "RevisionTreeEntry" in (x[1] or "") for x in walk(par))
                     ok = verdict == "ok" or from_tree
                     res.instance("R5", "%s: change record (revision, parent): %s" % (
                         b.path, "copied from a tree entry" if from_tree else "revision built from the parent by an index+1 constructor" if ok else "UNRELATED"), b.loc(st.line))
